@@ -1,6 +1,8 @@
 """C11 — flat line: window ending at n varies less than tolerance (DESIGN §4 C11)."""
 from __future__ import annotations
 
+import numpy as np
+
 from vfw import client, gen, hooks, models
 
 LEVEL = "exploration"
@@ -87,6 +89,30 @@ def run(ctx) -> None:
                           logical={"x": "70001 points, plateaus around 4096/16384/32768/65536", "step": 60}, hist="flat_line")
         ctx.count("flat_line.calls")
         ctx.case("huge|70001")
+        # long windows (k = 99 steps) over a long record of large-magnitude values whose wiggle is just above the tolerance
+        n = 60000
+        x = [101325.0 + (0.00390625 if (k // 50) % 2 else 0.0) for k in range(n)]  # 2^-8 wiggle, tolerance 2^-9 * 1.5
+        for b in (20000, 40000):
+            for k in range(b, b + 300):
+                x[k] = 101325.0
+        t = gen.regular(n, 1)
+        kw = {"inp": gen.arr(x), "tinp": gen.times(t), "suspect_threshold": 99, "fail_threshold": 249, "tolerance": 0.0029296875}
+        with mon.active():
+            client.expect(ctx, "C11", "qartod.flat_line_test", kw, lambda: models.flat_line(x, 1, 99, 249, 0.0029296875),
+                          logical={"x": "60000 points near 101325 with a 2^-8 wiggle every 50 samples and two 300-sample plateaus",
+                                   "step": 1, "suspect_threshold": 99, "fail_threshold": 249, "tolerance": 0.0029296875}, hist="flat_line")
+        ctx.count("flat_line.calls")
+        ctx.case("huge|long-window|60000")
+        # an observation that happens to equal numpy's default fill value (1e20) is an ordinary present value
+        for pos in (3, 6):
+            x = [5.0, 5.0, 5.0, 5.25, 5.0, 5.0, 5.0, 5.0, 5.25, 5.0]
+            x[pos] = 1e20
+            for inp in (gen.arr(x), list(x), np.ma.MaskedArray(np.array(x), mask=[False] * len(x))):
+                kw = {"inp": inp, "tinp": gen.times(gen.regular(len(x), 60)), "suspect_threshold": 120, "fail_threshold": 240, "tolerance": 0.5}
+                client.expect(ctx, "C11", "qartod.flat_line_test", kw, lambda: models.flat_line(x, 60, 120, 240, 0.5),
+                              logical={"x": x, "step": 60, "note": "1e20 is a present value"}, hist="flat_line")
+                ctx.count("flat_line.calls")
+                ctx.case(f"fillvalue-coincidence|{pos}|{type(inp).__name__}")
     ctx.counters["bounds.views_formed"] += mon.formed
     ctx.counters["bounds.views_formed_past_buffer_end(legal, never read)"] += mon.formed_oob
     ctx.counters["bounds.views_read"] += mon.materialised
